@@ -1,9 +1,15 @@
-"""C16: decided on the shared graph-history stream (harness/graph.py)."""
+"""C16: owning collections behave like the built-in list, set and dict.
+Sequence and set interfaces: the shared graph-history stream (harness/graph.py);
+mapping interface (symbolic_expressions): the stream of props/C13.py."""
 import graph_stream
+import props.C13 as c13
 
 
 def run(ctx):
     graph_stream.run(ctx)
+    rule = ctx.rule
+    c13.run(ctx)
+    ctx.rule = rule + " || mapping part: " + ctx.rule
 
 
 def search(ctx, broken):
